@@ -10,6 +10,7 @@ import (
 	"context"
 	"fmt"
 	"math/rand"
+	"os"
 	"strings"
 	"sync"
 	"testing"
@@ -37,14 +38,42 @@ type program struct {
 }
 
 type recorder struct {
-	mu sync.Mutex
-	b  *tv.Batch
+	mu   sync.Mutex
+	b    *tv.Batch // observable trace (contract level)
+	hb   *tv.Batch // hook-level trace (implementation level): the observable events (+ caller numbers) plus every decision point passed
+	over bool      // the run is over (tear-down): nothing more goes into the hook-level trace
 }
 
+// ev records an observable event; the caller number "c" only goes into the hook-level trace.
 func (r *recorder) ev(name string, m tv.M) {
 	r.mu.Lock()
 	defer r.mu.Unlock()
+	if m == nil {
+		m = tv.M{}
+	}
+	if r.hb != nil && !r.over {
+		o := tv.M{}
+		for k, v := range m {
+			o[k] = v
+		}
+		r.hb.Ev(name, o)
+	}
+	delete(m, "c")
 	r.b.Ev(name, m)
+}
+
+// hook records a decision point (verif hook) the pool passed.
+func (r *recorder) hook(point string, args []any) {
+	r.mu.Lock()
+	defer r.mu.Unlock()
+	if r.hb == nil || r.over {
+		return
+	}
+	m := tv.M{}
+	for i := 0; i+1 < len(args); i += 2 {
+		m[fmt.Sprint(args[i])] = args[i+1]
+	}
+	r.hb.Ev(point, m)
 }
 
 type result struct {
@@ -53,11 +82,15 @@ type result struct {
 	err      error
 }
 
-func runSchedule(b *tv.Batch, prog program, seed int64) result {
+func runSchedule(b, hb *tv.Batch, prog program, seed int64) result {
 	rng := rand.New(rand.NewSource(seed))
-	rec := &recorder{b: b}
+	rec := &recorder{b: b, hb: hb}
 	tr := b.Start(tv.M{"prog": prog, "seed": seed})
+	if hb != nil {
+		hb.Start(tv.M{"seed": seed})
+	}
 	ctl := sched.New("pool.*")
+	ctl.OnEvent = func(point string, args []any) { rec.hook(point, args) }
 	kitctx.VerifHook = func(point string) { ctl.Point(point) }
 	ctl.OnPanic = func(task string, p any) { rec.ev("panic", tv.M{"op": task, "what": fmt.Sprint(p)}) }
 	defer func() { kitctx.VerifHook = nil }()
@@ -130,16 +163,16 @@ func runSchedule(b *tv.Batch, prog program, seed int64) result {
 					cmu.Unlock()
 					cx = c2
 				}
-				rec.ev("add_call", tv.M{"m": o.M, "ended": ended})
+				rec.ev("add_call", tv.M{"m": o.M, "ended": ended, "c": ci + 1})
 				c.cur = ctl.Go(fmt.Sprintf("c%d:add", ci), func() {
 					pool.Add(cx)
-					rec.ev("add_ret", tv.M{"m": o.M})
+					rec.ev("add_ret", tv.M{"m": o.M, "c": ci + 1})
 				})
 			case "pcancel":
-				rec.ev("pcancel_call", nil)
+				rec.ev("pcancel_call", tv.M{"c": ci + 1})
 				c.cur = ctl.Go(fmt.Sprintf("c%d:pcancel", ci), func() {
 					pool.Cancel()
-					rec.ev("pcancel_ret", nil)
+					rec.ev("pcancel_ret", tv.M{"c": ci + 1})
 				})
 			}
 		}
@@ -187,6 +220,9 @@ func runSchedule(b *tv.Batch, prog program, seed int64) result {
 	}
 	res.schedule = d.Log
 	res.err = err
+	rec.mu.Lock()
+	rec.over = true
+	rec.mu.Unlock()
 	// tear down: end everything so no watcher leaks into the next scenario
 	ctl.Shutdown()
 	func() {
@@ -262,17 +298,9 @@ func TestCheck(t *testing.T) {
 		}
 	}()
 	rng := rand.New(rand.NewSource(ev.Seed()))
-	mc := tlc.Run(tlc.Opts{Dir: "CtxPool", Module: "CtxPool", Config: ev.Pick("MC_small.cfg", "MC_big.cfg"), Workers: 16,
-		Timeout: ev.Pick(4*time.Minute, 40*time.Minute), HeapMB: 12000, Args: []string{"-noGenerateSpecTE"}})
-	fmt.Printf("MC CtxPool: ok=%v generated=%d distinct=%d depth=%d wall=%s %s\n", mc.OK, mc.Generated, mc.Distinct, mc.Depth, mc.Wall.Round(time.Millisecond), mc.What)
-	if !mc.OK {
-		e.Inconclusive("model check of CtxPool.tla did not pass: " + mc.What + "\n" + mc.Tail(2000))
-	}
-	e.Set("states", mc.Distinct)
-	e.Set("transitions", mc.Generated)
-	e.Set("checker_cmd", mc.Cmd)
-
+	driveStart := time.Now()
 	b := &tv.Batch{}
+	hb := &tv.Batch{}
 	var results []result
 	var progs []program
 	END := func(m int) opSpec { return opSpec{Op: "end", M: m} }
@@ -304,7 +332,7 @@ func TestCheck(t *testing.T) {
 		if p.Pre == nil {
 			p.Pre = []int{}
 		}
-		r := runSchedule(b, p, seed)
+		r := runSchedule(b, hb, p, seed)
 		results = append(results, r)
 		progs = append(progs, p)
 		if r.err != nil {
@@ -326,17 +354,46 @@ func TestCheck(t *testing.T) {
 		}
 	}
 	fmt.Printf("executed %d schedules (%d events), %d could not be driven to the end\n", b.Len(), b.Lines(), inconcl)
+	fmt.Printf("timing: driving the schedules took %s\n", time.Since(driveStart).Round(time.Millisecond))
 	if inconcl > b.Len()/20 {
 		e.Inconclusive(fmt.Sprintf("%d of %d schedules could not be driven to quiescence", inconcl, b.Len()))
 	}
 	jb := &tv.Batch{}
+	jhb := &tv.Batch{}
 	var idx []int
 	for i, r := range results {
 		if r.err == nil {
 			jb.AppendTrace(b.Trace(r.trace))
+			jhb.AppendTrace(hb.Trace(r.trace))
 			idx = append(idx, i)
 		}
 	}
+	// the exhaustive model check and the model-binding validation run while the contract validation runs (all TLC, after the
+	// driving: the scheduler's quiescence detection must not see busy harness goroutines)
+	mcCh := make(chan tlc.Result, 1)
+	go func() {
+		mcCh <- tlc.Run(tlc.Opts{Dir: "CtxPool", Module: "CtxPool", Config: ev.Pick("MC_small.cfg", "MC_big.cfg"), Workers: 16,
+			Timeout: ev.Pick(4*time.Minute, 40*time.Minute), HeapMB: ev.Pick(4000, 12000), Args: []string{"-noGenerateSpecTE"}})
+	}()
+	type hval struct {
+		missing []int
+		res     tlc.Result
+	}
+	hCh := make(chan hval, 1)
+	go func() {
+		m, r := tv.ValidateDoneChunked(tlc.Opts{Dir: "CtxPool", Module: "TracePoolImpl", Config: "TracePoolImpl.cfg", Workers: ev.Pick(8, 16), Timeout: ev.Pick(6*time.Minute, 40*time.Minute), HeapMB: ev.Pick(4000, 8000)}, jhb)
+		hCh <- hval{m, r}
+	}()
+	defer func() {
+		mc := <-mcCh
+		fmt.Printf("MC CtxPool: ok=%v generated=%d distinct=%d depth=%d wall=%s %s\n", mc.OK, mc.Generated, mc.Distinct, mc.Depth, mc.Wall.Round(time.Millisecond), mc.What)
+		if !mc.OK {
+			e.Inconclusive("model check of CtxPool.tla did not pass: " + mc.What + "\n" + mc.Tail(2000))
+		}
+		e.Set("states", mc.Distinct)
+		e.Set("transitions", mc.Generated)
+		e.Set("checker_cmd", mc.Cmd)
+	}()
 	rej, res := tv.ValidateChunked(tlc.Opts{Dir: "CtxPool", Module: "TracePool", Config: "TracePool.cfg", Workers: 16, Timeout: ev.Pick(6*time.Minute, 40*time.Minute), HeapMB: 12000}, jb)
 	fmt.Printf("TLC contract validation: ok=%v traces=%d rejected=%d distinct=%d wall=%s %s\n", res.OK, jb.Len(), len(rej), res.Distinct, res.Wall.Round(time.Millisecond), res.What)
 	if !res.OK {
@@ -359,6 +416,21 @@ func TestCheck(t *testing.T) {
 			return -1
 		}, r.Why), " ", "-")
 		e.Violation(key, r.Why, tv.M{"program": progs[i], "schedule": results[i].schedule, "trace": jb.TraceStrings(r.Trace), "at": r.At})
+	}
+	// binding of the implementation-shaped model: hook-level traces must be behaviours of CtxPool.tla (drift, not verdict)
+	hv := <-hCh
+	hmissing, hres := hv.missing, hv.res
+	fmt.Printf("TLC model-binding validation (hook-level traces vs CtxPool.tla): ok=%v traces=%d events=%d not-explained=%d distinct=%d wall=%s %s\n", hres.OK, jhb.Len(), jhb.Lines(), len(hmissing), hres.Distinct, hres.Wall.Round(time.Millisecond), hres.What)
+	e.Set("impl_traces_validated", int64(jhb.Len()))
+	e.Set("impl_drift_traces", int64(len(hmissing)))
+	e.Set("drift", len(hmissing) > 0 || !hres.OK)
+	if !hres.OK {
+		fmt.Printf("DRIFT property=C20 the model-binding validation did not run: %s %s\n", hres.What, strings.ReplaceAll(hres.Tail(600), "\n", " | "))
+	} else if len(hmissing) > 0 {
+		fmt.Printf("DRIFT property=C20 %d hook-level traces are not behaviours of CtxPool.tla (model and code diverge; not a violation by itself), first: %v\n", len(hmissing), jhb.TraceStrings(hmissing[0]))
+	}
+	if os.Getenv("VERIF_DUMP_HOOK") != "" {
+		_ = os.WriteFile(os.Getenv("VERIF_DUMP_HOOK"), jhb.Bytes(), 0o644)
 	}
 	selfTest(e)
 }
